@@ -69,10 +69,12 @@ type c09Call struct {
 }
 
 type c09Case struct {
-	Kind      string       `json:"kind"`          // pregel|dag|workflow|chain|nested|checkpoint|react|host|wfstraggler|optshare|toollist
+	Kind      string       `json:"kind"`          // pregel|dag|workflow|chain|nested|checkpoint|react|host|wfstraggler|optshare|toollist|cbshare|inflight|errpath
 	Opt       *c09OptShare `json:"opt,omitempty"` // optshare (c09_opts.go)
 	TL        *c09ToolList `json:"tl,omitempty"`  // toollist (c09_opts.go)
 	Err       *c09ErrPath  `json:"err,omitempty"` // errpath (c09_errs.go)
+	CBS       *c09CBShare  `json:"cbs,omitempty"` // cbshare (c09_cbs.go)
+	FL        *c09Flight   `json:"fl,omitempty"`  // inflight (c09_flight.go)
 	Layers    []c09Layer   `json:"layers,omitempty"`
 	NestFrom  int          `json:"nestFrom,omitempty"` // nested: layers[NestFrom:NestTo] form the inner graph
 	NestTo    int          `json:"nestTo,omitempty"`
@@ -966,6 +968,18 @@ func c09BuildRunner(c *c09Case) (c09Runner, error) {
 			return nil, err
 		}
 		return c09OptShareRunner(c, r), nil
+	case "inflight":
+		rs, err := c09BuildFlight(c)
+		if err != nil {
+			return nil, err
+		}
+		return c09FlightRunner(c, rs), nil
+	case "cbshare":
+		r, err := c09BuildCbShare(c)
+		if err != nil {
+			return nil, err
+		}
+		return c09CbShareRunner(c, r), nil
 	case "toollist":
 		r, err := c09BuildToolList(c)
 		if err != nil {
